@@ -18,7 +18,7 @@ BUDGET = {'quick': 40, 'thorough': 900}
 PROBES = ['images_remastered', 'tz_changed', 'clock_stepped_back', 'udf_images', 'rr_images', 'eltorito_images', 'hybrid_images', 'joliet_images']
 ASSUMPTIONS = ['only bytes 830-846 of PVD/SVD sectors (volume modification date and time) are exempt from the comparison']
 
-PROFILE = H.Profile('c05', nops=(3, 22), weights={'add_boot_file': 3, 'add_eltorito': 5, 'add_isohybrid': 3, 'restart': 3})
+PROFILE = H.Profile('c05', nops=(3, 22), weights={'add_boot_file': 3, 'add_eltorito': 5, 'add_isohybrid': 3, 'hybrid_setup': 1.5, 'restart': 3})
 
 
 def mask_ranges(data):
